@@ -26,6 +26,7 @@ def main():
             print('MUTANT %s %s patch-failed: %s' % (os.path.basename(patch), prop, r.stdout.decode()[-300:]))
             return 3
         env = dict(os.environ, VERIF_REPO_ROOT=scratch, VERIF_SEED=seed)
+        sys.path.insert(0, '/verif'); from pbt import build as _b; _b.adopt(scratch)
         tests = 'skipped'
         if '--tests' in args:
             # build first so the tests see the mutant's extensions
